@@ -300,3 +300,34 @@ func VerifH_TTLSetRaces() {
 	}
 	symx.Reach("end")
 }
+
+// C05/H1c: stored values are values of their own: two keys set from one byte slice, then one of them
+// overwritten while live (plain or keep-ttl, shorter or equally long value): the other key and a slice an
+// earlier Get returned still read the bytes of their own latest Set.
+func VerifH_TTLValuesIndependent() {
+	ctx := context.Background()
+	now = func() int64 { return 100 }
+	c := NewTTLMemCache(4, 0)
+	buf := symx.Bytes("shared", 2)
+	orig := append([]byte(nil), buf...)
+	symx.Assert(c.Set(ctx, "a", buf) == nil && c.Set(ctx, "b", buf) == nil, "Set")
+	earlier, err := c.Get(ctx, "a")
+	symx.Assert(err == nil && len(earlier) == 2, "Get")
+	nv := symx.Bytes("newValue", symx.Concrete(symx.Int("newLen"), 1, 2))
+	if symx.Bool("keepTTL") {
+		symx.Assert(c.Set(ctx, "a", nv, WithKeepTTL()) == nil, "overwrite")
+	} else {
+		symx.Assert(c.Set(ctx, "a", nv) == nil, "overwrite")
+	}
+	gb, err := c.Get(ctx, "b")
+	symx.Assert(err == nil && len(gb) == 2 && gb[0] == orig[0] && gb[1] == orig[1], "a successful Get returns the value of the latest Set of that key")
+	ga, err := c.Get(ctx, "a")
+	symx.Assert(err == nil && len(ga) == len(nv), "the overwritten key returns its new value")
+	for i := range nv {
+		if i < len(ga) {
+			symx.Assert(ga[i] == nv[i], "the overwritten key returns its new value")
+		}
+	}
+	symx.Assert(len(earlier) == 2 && earlier[0] == orig[0] && earlier[1] == orig[1], "what an earlier Get returned is not changed by a later Set")
+	symx.Reach("end")
+}
